@@ -7,12 +7,14 @@ import vlib
 LEVEL = "proof"
 PROPS = "Sched/Props_C16.v"
 COQ_FILES = ["Sched/Compute.v", "Sched/ComputeProofs.v", "Sched/Cache.v", "Sched/CacheProofs.v",
-             "Sched/RaceModel.v", "Sched/Generated_WalkAccesses.v", "Sched/RaceProofs.v", "Sched/Props_C16.v"]
+             "Sched/RaceModel.v", "Sched/Generated_WalkAccesses.v", "Sched/RaceProofs.v",
+             "Sched/ClientRace.v", "Sched/Generated_ClientAccesses.v", "Sched/ClientRaceProofs.v", "Sched/Props_C16.v"]
 THEOREMS_CACHE = ["single_flight", "at_most_one_success_per_key", "waiters_get_owner_result",
                   "returns_linearizable", "no_lost_wakeup"]
 THEOREMS_COMPUTE = ["compute_patches_confluent", "compute_patches_confluent_compare", "patch_compare_total_preorder",
                     "patch_compare_not_transitive_refuted", "compute_patches_tie_schedule_dependent_refuted"]
-THEOREMS_RACE = ["walk_context_race_free"]
+THEOREMS_RACE = ["walk_context_race_free", "shared_clients_lock_protected", "client_unprotected_slots_refuted",
+                 "maven_registry_append_race_refuted"]
 
 META = {
     "technique": "Coq proofs (confluence of a nondeterministic task pool; inductive invariants of an LTS over arbitrarily "
@@ -89,7 +91,21 @@ def translate(ctx):
     rc, out = vlib.sh([binp, "-src", os.path.join(vlib.REPO, "extractor/filesystem/filesystem.go"), "-out", target])
     after = vlib.sha(open(target).read()) if os.path.exists(target) else None
     m = re.search(r"accesses=(\d+) calls=(\d+) fields=(\d+)", out)
-    return {"ok": rc == 0, "changed_since_last_run": before != after, "sha256": after,
+    # second table: structs of clients/datasource + clients/resolution
+    target2 = os.path.join(vlib.COQ, "theories", "Sched", "Generated_ClientAccesses.v")
+    before2 = vlib.sha(open(target2).read()) if os.path.exists(target2) else None
+    rc2, out2 = vlib.sh([binp, "-structs", ",".join(os.path.join(vlib.REPO, d) for d in ("clients/datasource", "clients/resolution")),
+                         "-out", target2])
+    after2 = vlib.sha(open(target2).read()) if os.path.exists(target2) else None
+    m2 = re.search(r"client_accesses=(\d+) structs=(\d+)", out2)
+    rc = rc or rc2
+    out += out2
+    # the tables are compiled on every run: a restored or rewritten .v must never be paired with an older .vo
+    for t in (target, target2):
+        if os.path.exists(t):
+            os.utime(t, None)
+    return {"ok": rc == 0, "client_table": {"changed_since_last_run": before2 != after2, "sha256": after2,
+                                            "accesses": int(m2.group(1)) if m2 else None, "structs": int(m2.group(2)) if m2 else None}, "changed_since_last_run": before != after, "sha256": after,
             "accesses": int(m.group(1)) if m else None, "calls": int(m.group(2)) if m else None,
             "fields": int(m.group(3)) if m else None, "log": out[-500:]}
 
@@ -262,6 +278,36 @@ def part_strategy(ctx, racebin):
     return res
 
 
+def part_clients(ctx, racebin, known):
+    """Concurrent GetVersions / GetProject on one MavenRegistryAPIClient with 0..5 added registries, local HTTP
+    server, under the race detector."""
+    rc, out = vlib.sh([racebin, "-mode", "clients"], timeout=300)
+    reps = parse_race_reports(out)
+    runs = [json.loads(x) for x in re.findall(r"^clients-run: (\{.*\})$", out, re.M)]
+    res = {"runs": runs, "race_reports": len(reps)}
+    if not runs:
+        ctx.violation({"kind": "clients-harness-failed", "log": out[-2000:]}, nofail=True)
+        return res
+    ok_fns = {"GetVersions", "GetProject"}
+    matched = [r for r in reps if r["frames"] and all(f[0] in ok_fns and f[1] == "maven_registry.go" for f in r["frames"])]
+    other = [r for r in reps if r not in matched]
+    res["matched_known"] = len(matched)
+    res["unmatched"] = len(other) + (len(matched) if known is None else 0)
+    for r in (other + (matched if known is None else []))[:3]:
+        ctx.violation({"kind": "data-race", "part": "clients", "frames": r["frames"], "report": r["text"],
+                       "explanation": "race detector report while several goroutines look packages up through one shared "
+                                      "MavenRegistryAPIClient (as the concurrent patch attempts do)",
+                       "replay_cmd": "%s -mode clients" % racebin})
+    if known is not None:
+        if matched:
+            ctx.print_known(known)
+        elif not other:
+            ctx.violation({"kind": "known-witness-no-longer-fails", "stale_theorem": known["refuted_theorem"],
+                           "explanation": "the generated access table still has the append-without-store pairs but the race "
+                                          "detector reported nothing", "output": out[-1500:]}, nofail=True)
+    return res
+
+
 # ----------------------------------------------------------------------------------------------- known findings
 def kf_compare(ctx, binp, entry):
     """Patch.Compare cycle: replay on result.Patch.Compare (npm semver) and on the model."""
@@ -391,6 +437,7 @@ def run(ctx):
     else:
         race_res = part_walk(ctx, racebin, known.get("walk-status-ticker-data-race"))
         ctx.log("walk under -race: %s" % {k: race_res[k] for k in race_res if k != "matched_frames"})
+        race_res["clients"] = part_clients(ctx, racebin, known.get("maven-registry-append-shared-capacity-race"))
         race_res["strategy"] = part_strategy(ctx, racebin)
         ctx.log("strategies under -race: %s" % {k: race_res["strategy"][k] for k in race_res["strategy"] if k != "sample"})
         # the same schedules under the race detector: any report here is a violation; in the thorough tier the
